@@ -25,7 +25,7 @@ REAL_VS_STUB = {'real': ['kyupy.wave_sim: _wave_eval, level_eval_cpu, wave_eval_
                 'stub': ['CUDA runtime -> SimCuda (order / interleave); atomic.add is one indivisible scheduler step']}
 ASSUMPTIONS = ['abuf is a 32-bit integer buffer; expected and actual sums are compared modulo 2**32 (weights up to 2**24+1 are generated)', 'sd = 0 (s[8]/s[9] under capture-time uncertainty are outside the statement)', '"unlimited capacity" = 64 entries per waveform; cases in which even that overflows are skipped for the indicator clause and counted',
                'accumulation tables are passed with len(lines)+3 rows (the documented len(lines) rows raise IndexError for gates without output line; recorded in DESIGN.md, outside this property)']
-EXPECTED_PROBES = ['nonmonotonic_output_captured', 'simulator_restored', 'overflow_occurred', 'clear_flag_compared', 'flag_set_seen', 'shared_accumulator_in_level', 'interleave_run', 'capture_time_at_transition', 'k_lt_sims']
+EXPECTED_PROBES = ['nonmonotonic_output_captured', 'simulator_restored', 'overflow_occurred', 'clear_flag_compared', 'flag_set_seen', 'shared_accumulator_in_level', 'interleave_run', 'capture_time_at_transition', 'k_lt_sims', 'capture_after_restricted_propagation']
 
 
 def gen(rng, tier, i):
@@ -51,6 +51,8 @@ def gen(rng, tier, i):
         cfgs.append({'cls': 'gpu', 'sched': wavegen.gen_interleave_sched(rng), 'block': wavegen.gen_block(rng, small=True)})
     if rng.random() < 0.25 and sims > 1:
         cfgs.append({'cls': rng.choice(['cpu', 'gpu']), 'k': rng.randint(1, sims - 1), 'block': wavegen.gen_block(rng)})
+        # restriction only in later batches: the lanes beyond k keep the waveforms of the earlier full propagation, and a capture (at another time) must still summarise them
+        if len(batches) > 1 and rng.random() < 0.6: cfgs[-1]['k_only_batches'] = list(range(1, len(batches)))
     if len(batches) > 1 and rng.random() < 0.25:
         cfgs.append({'cls': rng.choice(['cpu', 'gpu']), 'restore_after': [0], 'block': wavegen.gen_block(rng)})      # pickle round trip of the simulator after batch 0
     case['cfgs'] = cfgs
@@ -98,10 +100,10 @@ def execute(case):
         if cfg.get('restore_after'): res.probe('simulator_restored')
         res.log.add(label, [wsim.crc(o['s'][3:8]) for o in outs], [wsim.crc(o['abuf']) for o in outs])
         # ---- capture summary
-        lanes_ok = range(cfg['k']) if cfg.get('k') else None
         for bno, o in enumerate(outs):
-            if lanes_ok is None:
-                if not waveoracle.check_capture_summary(h, o, res, label=f'{label} batch {bno}: '): return res
+            # every lane, also after a propagation restricted to the first k: the capture reads the waveform memory as it stands (lanes never simulated hold no terminated waveform and are skipped by the oracle)
+            if cfg.get('k') and bno in (cfg.get('k_only_batches') or range(len(outs))): res.probe('capture_after_restricted_propagation')
+            if not waveoracle.check_capture_summary(h, o, res, label=f'{label} batch {bno}: '): return res
             if o['time'] is not None and case['batches'][bno].get('time_sel') and case['batches'][bno]['time_sel'][3] == 0: res.probe('capture_time_at_transition')
         # ---- accumulated switching activity
         if case.get('actrl'):
